@@ -1,4 +1,5 @@
 import EntraitModel.Expand
+import EntraitModel.Locus
 /-
   Property predicates.  Each `P_Cxx` is a decidable (Bool) statement about a *view* of an
   expansion — the generated items plus whether the original survived — and about the input.
@@ -1010,6 +1011,16 @@ def P_C12 (v : Variant) (attr : Toks) (item : Item) (view : View) : Bool :=
      | some im => zipAll asyncImplOk item.srcSigs im.members && asyncAttrsOk item.attrs im.attrs
      | none => false)
 
+/-- C05 in full: the leaf trait of a concrete-dependency function is the *final* trait.  The nested
+    invocation written on it knows nothing of the options of the first one (`?Send` in particular), so
+    the async methods must already carry the future type and `Send`-ness C12 prescribes; otherwise
+    neither the generated `impl Trait for C` nor an application's own impl fits the trait. -/
+def P_C05_full (v : Variant) (attr : Toks) (item : Item) (view : View) : Bool :=
+  P_C05 v attr item view &&
+  (match item with
+   | .fn f => optsNoDeps (effectiveOpts v attr item) || !f.sig.depIsConcrete || P_C12 v attr item view
+   | _ => true)
+
 /-! ## C14 — static delegation introduces no trait objects and no boxing -/
 
 def mentions (names : List String) : Toks → Bool
@@ -1216,6 +1227,76 @@ def specMisuses (attr : Toks) (item : Item) : Option (List String) :=
       | .ok a =>
           some (delegationMisuses a.implTrait a.delegation ++
                 (if t.members.any TraitMember.isOther then [msgUnsupportedTraitItem] else []))
+
+/-! ### … and where each documented misuse is to be reported ("at the offending tokens") -/
+
+/-- the misuse of one analysed function (`bs.1`: leaf index at which its signature starts in the
+    item) with the tokens to blame: the function's name if it has no parameter at all, the receiver,
+    the dependency type proper (inside any `&`) -/
+def sigMisusesAt (noDeps : Bool) (mode : Mode) (bs : Nat × Sig) : List (String × Locus) :=
+  if noDeps then []
+  else
+    match depsError bs.2 with
+    | some m => (locAt bs.1 bs.2.depsErrorAt).toList.map (fun l => (m, l))
+    | none =>
+      if bs.2.depIsConcrete then
+        (concreteMisuse mode).flatMap (fun m => (locAt bs.1 bs.2.depTypeAt).toList.map (fun l => (m, l)))
+      else []
+
+/-- every unsupported member of a trait, as a whole -/
+def otherMemberLoci : List TraitMember → Nat → List Locus
+  | [], _ => []
+  | .other toks :: rest, off => .item off (flatLen toks) :: otherMemberLoci rest (off + flatLen toks)
+  | m :: rest, off => otherMemberLoci rest (off + flatLen m.print)
+
+/-- a custom `delegate_by` without target trait is blamed on the `delegate_by` keyword; a target
+    trait without usable `delegate_by` has no token to blame: the invocation as a whole -/
+def delegationMisusesAt (attr : Toks) : Option (Toks × String) → Option Delegate → List (String × Locus)
+  | none, some (.byTrait _) =>
+      (lastDelegateAt (splitCommas attr) 0 none).toList.map (fun n => (msgCustomWithoutTrait, Locus.attr n 1))
+  | some _, none => [(msgMissingDelegateBy, .callSite)]
+  | some _, some .bySelf => [(msgMissingDelegateBy, .callSite)]
+  | _, _ => []
+
+/-- `specMisuses` with the place each message has to point at -/
+def specMisuseLoci (attr : Toks) (item : Item) : Option (List (String × Locus)) :=
+  match item with
+  | .fn f =>
+      match parseFnAttr attr with
+      | .error .syn => none
+      | .error (.diag m) => some ((fnAttrLocus attr).toList.map (fun l => (m, l)))
+      | .ok a => some (sigMisusesAt a.opts.noDepsValue .fn (f.sigBase, f.sig))
+  | .mod_ m =>
+      if m.unsafe_ then some [(msgNotAllowedHere, .item (flatLen (printAttrs m.attrs ++ m.vis)) 1)]
+      else
+        match splitBody false m.oracle m.body.length m.body, parseFnAttr attr with
+        | .error _, _ => none
+        | _, .error .syn => none
+        | _, .error (.diag msg) => some ((fnAttrLocus attr).toList.map (fun l => (msg, l)))
+        | .ok items, .ok a =>
+            some ((sigBases items (flatLen m.headToks + 1)).flatMap (sigMisusesAt a.opts.noDepsValue .mod_))
+  | .impl m =>
+      match splitBody true m.oracle m.body.length m.body, parseImplAttr attr with
+      | .error _, _ => none
+      | _, .error .syn => none
+      | _, .error (.diag msg) => some ((implAttrLocus attr).toList.map (fun l => (msg, l)))
+      | .ok items, .ok _ => some ((sigBases items (flatLen m.headToks + 1)).flatMap (sigMisusesAt false .impl))
+  | .trait t =>
+      match parseTraitAttr attr with
+      | .error .syn => none
+      | .error (.diag msg) => some ((traitAttrLocus attr).toList.map (fun l => (msg, l)))
+      | .ok a =>
+          some (delegationMisusesAt attr a.implTrait a.delegation ++
+                (otherMemberLoci t.members (flatLen t.headToks + 1)).map (fun l => (msgUnsupportedTraitItem, l)))
+
+/-- the diagnostic (message and place) is one of the documented misuses present, at its tokens -/
+def P_C15_at (attr : Toks) (item : Item) (diag : Option (String × Option Locus)) : Bool :=
+  match specMisuseLoci attr item with
+  | some (x :: xs) =>
+      (match diag with
+       | some (msg, some l) => (x :: xs).contains (msg, l)
+       | _ => false)
+  | _ => true
 
 /-- `realDiag`: `some msgs` if the macro answered with compile errors; `realPanic`; `realParsed` -/
 def P_C15 (attr : Toks) (item : Item) (realPanic : Bool) (realDiag : Option (List String)) (realParsed : Bool) : Bool :=
